@@ -117,7 +117,8 @@ def make_plan(rng):
     if c is None or len(c[3]) == 1:
         return None
     ps = c[1]
-    gas = upp.ground_instances(ps)
+    written = set(r[1] for r in c[3][1:] if r[0] == "action")      # actions with a false precondition are not written
+    gas = [g for g in upp.ground_instances(ps) if g[0] in written]
     if not gas:
         return None
     steps = [rng.choice(gas) for _ in range(rng.choice([1, 2, 3, 3]))]
@@ -142,7 +143,7 @@ def make_num(rng):
 
 
 def cases(rng, tier):
-    n_rt, n_read, n_plan, n_num = (60, 110, 25, 60) if tier == "quick" else (420, 1100, 200, 500)
+    n_rt, n_read, n_plan, n_num = (24, 50, 15, 40) if tier == "quick" else (250, 600, 150, 400)
     for i in range(n_rt):
         c = None
         for _ in range(5):
@@ -169,7 +170,13 @@ def cases(rng, tier):
 # ------------------------------------------------------------------------------------------------
 
 def up_read(dom_text, prob_text):
-    return PDDLReader(force_up_pddl_reader=True).parse_problem_string(dom_text, prob_text)
+    return cp.up_read_cached(dom_text, prob_text)
+
+
+def read_texts(payload):
+    """the PDDL texts of a `read` case (layout and comments drawn from the payload's own hash)"""
+    rng = random.Random(int(hashlib.sha1(sexp.dumps(payload).encode()).hexdigest()[:8], 16))
+    return cp.render_text(rng, payload[1]), cp.render_text(rng, payload[2])
 
 
 def const_names_of(dom_tree):
@@ -200,8 +207,7 @@ def impl(payload):
         rb = cp.canon_read_problem(upp.enc_problem(Q), const_names_of(dt))
         return ["ok", cp.canon_domain_tree(dt), pt, rb, "T"]
     if kind == "read":
-        rng = random.Random(int(hashlib.sha1(sexp.dumps(payload).encode()).hexdigest()[:8], 16))
-        dom, prob = cp.render_text(rng, payload[1]), cp.render_text(rng, payload[2])
+        dom, prob = read_texts(payload)
         try:
             Q = up_read(dom, prob)
         except Exception as e:
@@ -220,7 +226,7 @@ def impl(payload):
             return "unsupported"
         trees = [cp.tokenize(l) for l in text.splitlines() if l.strip()]
         try:
-            back = PDDLReader(environment=P.environment).parse_plan_string(P, text, w.get_item_named)
+            back = cp.reader("up").parse_plan_string(P, text, w.get_item_named)
             bs = [[ai.action.name] + [p.object().name for p in ai.actual_parameters] for ai in back.actions]
         except Exception:
             bs = "error"
@@ -385,15 +391,14 @@ def oracle(payload):
     pick = int(hashlib.sha1(sexp.dumps(payload).encode()).hexdigest()[:6], 16)
     depth = 3
     if k == "rt":
-        for ps in ([payload[4][1]] if len(payload) > 4 else []) + [payload[1]]:
-            why = _oracle_problem(ps, depth, pick)
-            if why:
-                return why
-        return None
+        # the problem as generated (its simplified copy, which the model sees, denotes the same problem)
+        return _oracle_problem(payload[4][1] if len(payload) > 4 else payload[1], depth, pick)
     if k == "read":
-        # the property applied to the problem this text denotes: write it, read it back, compare
-        rng = random.Random(pick)
-        dom, prob = cp.render_text(rng, payload[1]), cp.render_text(rng, payload[2])
+        # the property applied to the problem this text denotes: write it, read it back, compare (every other case:
+        # one pyparsing pass costs ~0.3 s)
+        if pick % 2:
+            return None
+        dom, prob = read_texts(payload)
         try:
             Q = up_read(dom, prob)
         except Exception:
@@ -401,7 +406,7 @@ def oracle(payload):
         if cp.outside_fragment(Q):
             return None
         undefined = any(Q.initial_value(f) is None for f in cp.ground_fluents(Q))
-        why, info = cp.roundtrip_check(Q, -1 if undefined else 1, pick=pick)
+        why, info = cp.roundtrip_check(Q, -1 if undefined else 1, readers=("up",), pick=pick)
         return why
     if k == "plan":
         a = impl(payload)
